@@ -30,6 +30,19 @@ pub struct TableEntry {
     flag: NodeType,
 }
 
+#[cfg(daniel729_chess_verif)]
+#[allow(dead_code)]
+impl TableEntry {
+    /// verification hook (read-only): the move cached in this entry
+    pub fn verif_pv(&self) -> Option<Move> {
+        self.pv
+    }
+    /// verification hook (read-only): the remaining depth this entry was stored with
+    pub fn verif_depth(&self) -> u8 {
+        self.depth
+    }
+}
+
 /// Order:
 ///
 /// 1. PV move
